@@ -295,6 +295,12 @@ impl<const K: usize> AffTree<K> {
         }
 
         for (label, node) in to_remove {
+            // A decision must keep at least one child: without children the node would be
+            // read as a terminal although it holds a predicate. The last child of a decision
+            // is therefore kept even when it is infeasible (less pruning, same function).
+            if self.tree.contains(node) && self.tree.num_children(node) <= 1 {
+                continue;
+            }
             let _ = self.tree.try_remove_child(node, label);
         }
 
